@@ -321,8 +321,15 @@ class ctx:
 
         async def generator() -> AsyncGenerator[Result, None]:
             async with streaming_context:
-                async for result in source(*args, **kwargs):
-                    yield result
+                results: AsyncGenerator[Result, None] = source(*args, **kwargs)
+                try:
+                    async for result in results:
+                        yield result
+
+                finally:
+                    # closing the stream early has to close the source generator as well,
+                    # otherwise it would be finalized later on out of this context
+                    await results.aclose()
 
         # finally return it as an iterator
         return context_snapshot.run(generator)
